@@ -122,7 +122,7 @@ def coerce (typ : Str) (v : Val) : Res Val :=
   | "int", .int n d => .ok (.int n d)
   | "int", .bool b => .ok (.int false (if b then ['1'] else ['0']))
   | "float", .float t => .ok (.float t)
-  | "float", .int n d => .ok (.float (signed n d))
+  | "float", .int n d => .ok (.float (signed (n && !isZeroDigits d) d))   -- (`float(-0)` is `0.0`: the integer -0 IS 0)
   | "float", .bool b => .ok (.float (if b then "1.0".toList else "0.0".toList))
   | "bool", .bool b => .ok (.bool b)
   | "bool", .int _ d => .ok (.bool (!isZeroDigits d))
